@@ -585,6 +585,11 @@ func (v *VM) run() {
 						}
 						v.stack[spStart] = &Array{Value: args}
 						v.sp = spStart + 1
+						v.allocs--
+						if v.allocs == 0 {
+							v.err = ErrObjectAllocLimit
+							return
+						}
 					}
 				}
 				if numArgs != callee.NumParameters {
